@@ -3,7 +3,12 @@
 // common.MessageAuthenticator with real Ed25519 cold keys, real operational
 // certificate signatures and real depth-6 KES keys (ledger.VerifyKesComponents
 // injected as the verifier). An abstract fault (idOk / certOk / kesOk = false)
-// becomes one seeded concrete corruption of that component only. After every
+// becomes one seeded concrete corruption of that component only; a REPLAYED
+// fault (rep/src of the call) is built from the genuine message of that pool and
+// counter that this history presented earlier: its id or its KES signature on
+// another payload, or the cold signature of its certificate with another KES
+// key / issue number / KES period. Genuine messages of one pool and counter
+// carry the same operational certificate (most histories), as a pool's do. After every
 // call accept/reject and IsSPOPoolRegistered of every pool are compared with the
 // spec's expectation carried by the row.
 package main
@@ -43,6 +48,8 @@ type call struct {
 	Kes  bool   `json:"kes"`
 	Ctr  int    `json:"ctr"`
 	Flag bool   `json:"flag"`
+	Rep  string `json:"rep"` // "" or the replayed component: id | kes | cert:kesvk | cert:issue | cert:period
+	Src  int    `json:"src"` // counter of the genuine message replayed from (-1: none)
 }
 
 type exp struct {
@@ -99,6 +106,9 @@ func (c call) String() string {
 		}
 		if c.Kes {
 			f[2] = 'K'
+		}
+		if c.Rep != "" {
+			return fmt.Sprintf("V(%s,%s,%d,%s<-%d)", c.Pool, f, c.Ctr, c.Rep, c.Src)
 		}
 		return fmt.Sprintf("V(%s,%s,%d)", c.Pool, f, c.Ctr)
 	}
@@ -219,6 +229,7 @@ type built struct {
 	msg      *common.DmqMessage
 	withSlot bool
 	slot     uint64
+	e        int // the KES evolution the verifier will derive
 	how      []string
 }
 
@@ -234,14 +245,80 @@ func flip(rng *rand.Rand, b []byte) {
 	b[rng.Intn(len(b))] ^= 1 << uint(rng.Intn(8))
 }
 
+// genuine is a fully genuine message this history has presented to the authenticator (deep copies)
+type genuine struct {
+	payload  common.DmqMessagePayload
+	id       []byte
+	kesSig   []byte
+	withSlot bool
+	slot     uint64
+	e        int
+	opcert   common.OperationalCertificate
+}
+
+func clone(b []byte) []byte { return append([]byte(nil), b...) }
+
+func cloneCert(c common.OperationalCertificate) common.OperationalCertificate {
+	c.KESVerificationKey = clone(c.KESVerificationKey)
+	c.ColdSignature = clone(c.ColdSignature)
+	return c
+}
+
+// builder holds what a history has presented so far
+type builder struct {
+	rep     *vh.Reporter
+	u       *universe
+	rng     *rand.Rand
+	ctrs    []uint64
+	oneCert bool                                     // genuine messages of a pool and counter share one certificate
+	certs   map[string]common.OperationalCertificate // pool/ctr -> that certificate
+	src     map[string]*genuine                      // pool/ctr -> the last fully genuine message presented
+}
+
+func newBuilder(rep *vh.Reporter, u *universe, rng *rand.Rand, ctrs []uint64, oneCert bool) *builder {
+	return &builder{rep: rep, u: u, rng: rng, ctrs: ctrs, oneCert: oneCert,
+		certs: map[string]common.OperationalCertificate{}, src: map[string]*genuine{}}
+}
+
+func (bd *builder) signCert(signer ed25519.PrivateKey, kesVk []byte, issue, start uint64) []byte {
+	return ed25519.Sign(signer, mustCbor(bd.rep, []any{kesVk, issue, start}))
+}
+
+// genuineCert is the certificate of pool p with abstract counter ctr, signed by p's cold key
+func (bd *builder) genuineCert(p *pool, ctr int) common.OperationalCertificate {
+	k := fmt.Sprintf("%s/%d", p.name, ctr)
+	if c, ok := bd.certs[k]; ok && bd.oneCert {
+		return cloneCert(c)
+	}
+	c := common.OperationalCertificate{
+		KESVerificationKey: clone(p.kes.pk),
+		IssueNumber:        bd.ctrs[ctr],
+		KESPeriod:          uint64(bd.rng.Intn(100000)),
+	}
+	c.ColdSignature = bd.signCert(p.coldPriv, c.KESVerificationKey, c.IssueNumber, c.KESPeriod)
+	bd.certs[k] = c
+	return cloneCert(c)
+}
+
 // build makes the concrete message of an abstract verify call
-func (u *universe) build(rep *vh.Reporter, rng *rand.Rand, c call, ctrs []uint64) *built {
+func (bd *builder) build(c call) *built {
+	rep, rng, u, ctrs := bd.rep, bd.rng, bd.u, bd.ctrs
 	p := u.pools[c.Pool]
 	if p == nil {
 		rep.Dead("unknown pool %q", c.Pool)
 	}
 	if c.Ctr < 0 || c.Ctr >= len(ctrs) {
 		rep.Dead("counter %d outside the map", c.Ctr)
+	}
+	var s *genuine // the message replayed from
+	if c.Rep != "" {
+		if s = bd.src[fmt.Sprintf("%s/%d", c.Pool, c.Src)]; s == nil {
+			rep.Dead("replay %s from (%s,%d): no such genuine message was presented", c.Rep, c.Pool, c.Src)
+		}
+		certRep := strings.HasPrefix(c.Rep, "cert:")
+		if c.Id != (c.Rep != "id") || c.Kes != (c.Rep != "kes") || c.Cert == certRep || (c.Rep == "cert:issue") == (c.Ctr == c.Src) {
+			rep.Dead("malformed replay call %s", c)
+		}
 	}
 	out := &built{}
 	body := make([]byte, rng.Intn(200))
@@ -258,49 +335,54 @@ func (u *universe) build(rep *vh.Reporter, rng *rand.Rand, c call, ctrs []uint64
 		e = []int{0, 1, 2, 31, 32, 33, 62, 63}[rng.Intn(8)]
 		out.slot = (payload.KESPeriod+uint64(e))*slotsPerKesPeriod + uint64(rng.Intn(slotsPerKesPeriod))
 	}
+	if c.Rep == "kes" { // same KES period, slot and hence evolution as the source: only the payload differs
+		payload.KESPeriod, out.withSlot, out.slot, e = s.payload.KESPeriod, s.withSlot, s.slot, s.e
+	}
+	if s != nil && bytes.Equal(payload.MessageBody, s.payload.MessageBody) {
+		payload.MessageBody = append(payload.MessageBody, 1)
+	}
 	wrapped := mustCbor(rep, mustCbor(rep, payload))
 
-	// KES signature over the wrapped payload
-	signer, signAt, signed := p.kes, e, wrapped
-	if !c.Kes {
-		switch v := rng.Intn(4); v {
-		case 1: // made at a neighbouring evolution
-			if e == kesPeriods-1 || (e > 0 && rng.Intn(2) == 0) {
-				signAt = e - 1
-			} else {
-				signAt = e + 1
-			}
-			out.how = append(out.how, fmt.Sprintf("kes:evolution %d instead of %d", signAt, e))
-		case 2: // over another payload
-			other := payload
-			other.MessageBody = append(append([]byte(nil), body...), 0)
-			signed = mustCbor(rep, mustCbor(rep, other))
-			out.how = append(out.how, "kes:signature over another payload")
-		case 3: // by another KES key
-			signer = u.foreignKes
-			out.how = append(out.how, "kes:signed by another KES key")
-		}
-	}
-	kesSig, err := kes.Sign(signer.at[signAt], uint64(signAt), signed)
-	if err != nil {
-		rep.Dead("kes.Sign: %v", err)
-	}
-	if !c.Kes && len(out.how) == 0 {
-		flip(rng, kesSig)
-		out.how = append(out.how, "kes:bit flip in the signature")
-	}
-
 	// operational certificate signed by the cold key
-	start := uint64(rng.Intn(100000))
-	issue := ctrs[c.Ctr]
-	opcert := common.OperationalCertificate{
-		KESVerificationKey: append([]byte(nil), p.kes.pk...),
-		IssueNumber:        issue,
-		KESPeriod:          start,
-	}
-	certSigner, signedIssue, signedStart := p.coldPriv, issue, start
-	certFlip := false
-	if !c.Cert {
+	var opcert common.OperationalCertificate
+	claimedKes := p.kes // the KES key the certificate names
+	switch {
+	case s != nil && strings.HasPrefix(c.Rep, "cert:"):
+		opcert = cloneCert(s.opcert) // cold key, cold signature and the other fields as presented before
+		what := ""
+		switch c.Rep {
+		case "cert:kesvk":
+			opcert.KESVerificationKey = clone(u.foreignKes.pk)
+			claimedKes = u.foreignKes
+			what = "another KES verification key"
+		case "cert:issue":
+			opcert.IssueNumber = ctrs[c.Ctr]
+			what = fmt.Sprintf("issue number %d instead of %d", opcert.IssueNumber, s.opcert.IssueNumber)
+		case "cert:period":
+			switch v := rng.Intn(3); {
+			case v == 0 && opcert.KESPeriod > 0:
+				opcert.KESPeriod--
+			case v == 1:
+				opcert.KESPeriod = uint64(rng.Intn(100000)) + 100000
+			default:
+				opcert.KESPeriod++
+			}
+			what = fmt.Sprintf("KES period %d instead of %d", opcert.KESPeriod, s.opcert.KESPeriod)
+		default:
+			rep.Dead("unknown replay %q", c.Rep)
+		}
+		if bytes.Equal(opcert.KESVerificationKey, s.opcert.KESVerificationKey) && opcert.IssueNumber == s.opcert.IssueNumber && opcert.KESPeriod == s.opcert.KESPeriod {
+			rep.Dead("replayed certificate equals its source")
+		}
+		out.how = append(out.how, fmt.Sprintf("cert:cold signature of the certificate presented before (counter %d) with %s", c.Src, what))
+	case c.Cert:
+		opcert = bd.genuineCert(p, c.Ctr)
+	default:
+		start := uint64(rng.Intn(100000))
+		issue := ctrs[c.Ctr]
+		opcert = common.OperationalCertificate{KESVerificationKey: clone(p.kes.pk), IssueNumber: issue, KESPeriod: start}
+		certSigner, signedIssue, signedStart := p.coldPriv, issue, start
+		certFlip := false
 		switch v := rng.Intn(4); v {
 		case 0:
 			certFlip = true
@@ -319,22 +401,79 @@ func (u *universe) build(rep *vh.Reporter, rng *rand.Rand, c call, ctrs []uint64
 			}
 			out.how = append(out.how, "cert:counter differs from the signed one")
 		}
+		opcert.ColdSignature = bd.signCert(certSigner, opcert.KESVerificationKey, signedIssue, signedStart)
+		if certFlip {
+			flip(rng, opcert.ColdSignature)
+		}
 	}
-	opcert.ColdSignature = ed25519.Sign(certSigner, mustCbor(rep, []any{opcert.KESVerificationKey, signedIssue, signedStart}))
-	if certFlip {
-		flip(rng, opcert.ColdSignature)
+
+	// KES signature over the wrapped payload, under the key the certificate names
+	var kesSig []byte
+	if c.Rep == "kes" {
+		kesSig = clone(s.kesSig)
+		out.how = append(out.how, fmt.Sprintf("kes:signature of the message presented before (counter %d), over that message's payload", c.Src))
+	} else {
+		signer, signAt, signed := claimedKes, e, wrapped
+		flipSig := false
+		if !c.Kes {
+			switch v := rng.Intn(4); v {
+			case 0:
+				flipSig = true
+				out.how = append(out.how, "kes:bit flip in the signature")
+			case 1: // made at a neighbouring evolution
+				if e == kesPeriods-1 || (e > 0 && rng.Intn(2) == 0) {
+					signAt = e - 1
+				} else {
+					signAt = e + 1
+				}
+				out.how = append(out.how, fmt.Sprintf("kes:evolution %d instead of %d", signAt, e))
+			case 2: // over another payload
+				other := payload
+				other.MessageBody = append(clone(payload.MessageBody), 0)
+				signed = mustCbor(rep, mustCbor(rep, other))
+				out.how = append(out.how, "kes:signature over another payload")
+			case 3: // by another KES key
+				if signer = u.foreignKes; claimedKes == u.foreignKes {
+					signer = p.kes
+				}
+				out.how = append(out.how, "kes:signed by another KES key")
+			}
+		}
+		var err error
+		if kesSig, err = kes.Sign(signer.at[signAt], uint64(signAt), signed); err != nil {
+			rep.Dead("kes.Sign: %v", err)
+		}
+		if flipSig {
+			flip(rng, kesSig)
+		}
 	}
 
 	msg := &common.DmqMessage{
 		Payload:                payload,
 		KESSignature:           kesSig,
 		OperationalCertificate: opcert,
-		ColdVerificationKey:    append([]byte(nil), p.coldPub...),
+		ColdVerificationKey:    clone(p.coldPub),
 	}
 	if err := msg.SetComputedMessageID(); err != nil {
 		rep.Dead("SetComputedMessageID: %v", err)
 	}
-	if !c.Id {
+	if c.Id && c.Cert && c.Kes { // fully genuine: from now on it can be replayed from
+		bd.src[fmt.Sprintf("%s/%d", c.Pool, c.Ctr)] = &genuine{
+			payload: common.DmqMessagePayload{MessageBody: clone(payload.MessageBody), KESPeriod: payload.KESPeriod, ExpiresAt: payload.ExpiresAt},
+			id:      clone(msg.MessageID), kesSig: clone(kesSig), withSlot: out.withSlot, slot: out.slot, e: e, opcert: cloneCert(opcert),
+		}
+	}
+	switch {
+	case c.Rep == "id":
+		if bytes.Equal(msg.MessageID, s.id) {
+			rep.Dead("replayed id equals the computed one")
+		}
+		msg.MessageID, msg.Payload.MessageID = clone(s.id), nil
+		if rng.Intn(2) == 0 {
+			msg.Payload.MessageID = clone(s.id)
+		}
+		out.how = append(out.how, fmt.Sprintf("id:id of the message presented before (counter %d)", c.Src))
+	case !c.Id:
 		switch v := rng.Intn(5); v {
 		case 0:
 			flip(rng, msg.MessageID)
@@ -361,27 +500,48 @@ func (u *universe) build(rep *vh.Reporter, rng *rand.Rand, c call, ctrs []uint64
 		}
 	}
 	out.msg = msg
+	out.e = e
 	return out
 }
 
-// selfCheck proves with primitives only (not with the authenticator) that an unfaulted message is well formed
+// primitives evaluates the three components of a built message with the primitives only (Blake2b, Ed25519, KES), not with the authenticator
+func primitives(rep *vh.Reporter, b *built) (idOk, certOk, kesOk bool) {
+	m := b.msg
+	id := m.MessageID
+	if len(id) == 0 {
+		id = m.Payload.MessageID
+	}
+	pl := m.Payload
+	pl.MessageID = nil
+	h := blake2b.Sum256(mustCbor(rep, pl))
+	oc := m.OperationalCertificate
+	return bytes.Equal(h[:], id),
+		ed25519.Verify(m.ColdVerificationKey, mustCbor(rep, []any{oc.KESVerificationKey, oc.IssueNumber, oc.KESPeriod}), oc.ColdSignature),
+		kes.VerifySignedKES(oc.KESVerificationKey, uint64(b.e), mustCbor(rep, mustCbor(rep, pl)), m.KESSignature)
+}
+
+// selfCheck proves with primitives only that the driver builds what the abstract call says: every fault triple, and every
+// replay, is wrong in exactly the named components and genuine in the others
 func (u *universe) selfCheck(rep *vh.Reporter) {
 	rng := rand.New(rand.NewSource(1))
+	check := func(bd *builder, c call) {
+		b := bd.build(c)
+		if id, cert, k := primitives(rep, b); id != c.Id || cert != c.Cert || k != c.Kes {
+			rep.Dead("driver cannot build %s: components are id=%v cert=%v kes=%v [%s]", c, id, cert, k, strings.Join(b.how, "; "))
+		}
+	}
 	for _, n := range u.names {
-		for k := 0; k < 8; k++ {
-			b := u.build(rep, rng, call{Op: "verify", Pool: n, Id: true, Cert: true, Kes: true, Ctr: 1}, ctrMaps[1])
-			m := b.msg
-			id := blake2b.Sum256(mustCbor(rep, m.Payload))
-			cert := mustCbor(rep, []any{m.OperationalCertificate.KESVerificationKey, m.OperationalCertificate.IssueNumber, m.OperationalCertificate.KESPeriod})
-			e := uint64(0)
-			if b.withSlot {
-				e = b.slot/slotsPerKesPeriod - m.Payload.KESPeriod
+		for k := 0; k < 6; k++ {
+			bd := newBuilder(rep, u, rng, ctrMaps[k%len(ctrMaps)], k%2 == 0)
+			for f := 0; f < 8; f++ {
+				check(bd, call{Op: "verify", Pool: n, Id: f&1 == 0, Cert: f&2 == 0, Kes: f&4 == 0, Ctr: 1, Src: -1})
 			}
-			wrapped := mustCbor(rep, mustCbor(rep, m.Payload))
-			if !bytes.Equal(id[:], m.MessageID) ||
-				!ed25519.Verify(m.ColdVerificationKey, cert, m.OperationalCertificate.ColdSignature) ||
-				!kes.VerifySignedKES(m.OperationalCertificate.KESVerificationKey, e, wrapped, m.KESSignature) {
-				rep.Dead("driver cannot build a well-formed baseline message")
+			for _, r := range []string{"id", "kes", "cert:kesvk", "cert:period", "cert:issue"} {
+				c := call{Op: "verify", Pool: n, Id: r != "id", Cert: !strings.HasPrefix(r, "cert:"), Kes: r != "kes", Ctr: 1, Rep: r, Src: 1}
+				if r == "cert:issue" {
+					c.Ctr = 2 * (k % 2)
+				}
+				check(bd, c)
 			}
 		}
 	}
@@ -397,13 +557,14 @@ type world struct {
 	rseed int64
 	auth  *common.MessageAuthenticator
 	ctrs  []uint64
+	bd    *builder
 	hist  []string
 }
 
 var quiet = slog.New(slog.NewTextHandler(io.Discard, nil))
 
 func (w *world) replayObj(at string, how []string) map[string]any {
-	return map[string]any{"row": w.r, "rseed": w.rseed, "verif_seed": vh.Seed(), "at": at, "concrete": how, "counter_map": fmt.Sprint(w.ctrs)}
+	return map[string]any{"row": w.r, "rseed": w.rseed, "verif_seed": vh.Seed(), "at": at, "concrete": how, "counter_map": fmt.Sprint(w.ctrs), "one_certificate_per_counter": w.bd.oneCert}
 }
 
 func (w *world) do(en entry) {
@@ -426,7 +587,7 @@ func (w *world) do(en entry) {
 		case "setinsecure":
 			w.auth.SetAllowInsecureKES(c.Flag)
 		case "verify":
-			b := w.u.build(w.rep, w.rng, c, w.ctrs)
+			b := w.bd.build(c)
 			how = b.how
 			var err error
 			if b.withSlot {
@@ -458,6 +619,7 @@ func (w *world) do(en entry) {
 func runRow(rep *vh.Reporter, u *universe, r *row, rseed int64) {
 	w := &world{rep: rep, u: u, rng: rand.New(rand.NewSource(rseed)), r: r, rseed: rseed}
 	w.ctrs = ctrMaps[w.rng.Intn(len(ctrMaps))]
+	w.bd = newBuilder(rep, u, w.rng, w.ctrs, w.rng.Intn(4) != 0)
 	w.auth = common.NewMessageAuthenticator(quiet)
 	for _, p := range r.Init.Registered {
 		w.auth.RegisterSPOPool(u.pools[p].id)
